@@ -790,7 +790,12 @@ func (dht *IpfsDHT) setMode(m mode) error
 
 func handleLocalReachabilityChangedEvent(dht *IpfsDHT, e event.EvtLocalReachabilityChanged)
   props C13
+  ghostvar $switched bool = false
   modifies *
+  # the mode after the event is determined by this event alone: every event
+  # reaches setMode (an early return would leave the mode of an earlier event)
+  ensures [every-event-sets-the-mode] $switched
+  ghost at call(setMode): $switched = true
   ghost at before call(setMode): assert(imp(e.Reachability == network.ReachabilityPublic, $arg0 == modeServer)); assert(imp(e.Reachability == network.ReachabilityPrivate, $arg0 == modeClient)); assert(imp(e.Reachability == network.ReachabilityUnknown, $arg0 == ite(dht.auto == ModeAutoServer, modeServer, modeClient)))
 
 func (dht *IpfsDHT) startNetworkSubscriber() error
